@@ -30,6 +30,18 @@ def c08_rt(tier, seed):
     return run_rt("c08_rt.py", "rt:c08", tier, seed, 1500, 60000)
 
 
+def c19_rt(tier, seed):
+    from pyvc.rtcheck import run_rt
+
+    return run_rt("c19_rt.py", "rt:c19", tier, seed, 20000, 1000000)
+
+
+def c07_rt(tier, seed):
+    from pyvc.rtcheck import run_rt
+
+    return run_rt("c07_rt.py", "rt:c07", tier, seed, 1500, 100000)
+
+
 PROPS = {
     "C02": {
         "modules": ["contracts.c02_paths"],
@@ -164,6 +176,30 @@ PROPS = {
             "the client-side command constructors ('CWD ' + str(path) etc.) are plain concatenations; their server-side split is Server.parse_command's contract",
             "what the OS does with such names",
         ],
+        "explanation": "",
+    },
+    "C07": {
+        "modules": ["contracts.c07_listing", "contracts.c08_names"],
+        "unit_filter": ["lemma:ls-date-round-trip(build_list_mtime;parse_ls_date)", "BaseClient.parse_mlsx_line", "Server.build_mlsx_string", "lemma:first-space-splits-facts-from-name"],
+        "extra": ["contracts.index.c07_rt"],
+        "level": "proof",
+        "trusted_base": [T_PY, T_ENGINE, T_SOLVER, "T-time: proleptic Gregorian calendar; strftime/strptime inverse on the printed fields for the formats of the tree; years 1970..2200", "T-str"],
+        "assumptions": ["T-zone: one fixed UTC offset for server localtime and client now; the client parses a listing within one hour of its production"],
+        "not_decided": [
+            "whole-line LIST round trip (type, size, name fields through build_list_string / parse_list_line_unix) and the MLSx fact values (Size, Modify, Type): bounded run-time checker rt/c07_rt.py only",
+            "one entry per line / none invented (mlsd_worker / list_worker loop invariants over the backend listing): not under contract",
+            "DST zones; libc locale other than the setlocale('C') the code forces; what PathIO.stat reports",
+        ],
+        "explanation": "",
+    },
+    "C19": {
+        "modules": ["contracts.c07_listing", "contracts.c06_framing", "contracts.c20_logs", "contracts.server_units", "contracts.dispatcher_units", "contracts.c19_malformed"],
+        "extra": ["contracts.index.c19_rt"],
+        "unit_filter_prefix": ["BaseClient.parse_unix_mode", "BaseClient.parse_ls_date", "BaseClient.parse_list_line", "BaseClient.parse_line", "BaseClient.parse_response#any-stream", "Server.parse_command#", "Server.dispatcher/for-task-in-done", "Server.", "BaseClient.parse_epsv_response", "BaseClient.parse_pasv_response", "Client.list.<locals>.AsyncLister"],
+        "level": "proof",
+        "trusted_base": [T_PY, T_ENGINE, T_SOLVER, T_AIO, "exception tables of the Python primitives used by the parsers (s[i], d[k], str.index/rindex, int(), bytes.decode, strptime, datetime.replace, unpacking): DESIGN.md 2.5", "regular expressions of parse_epsv_response / parse_pasv_response as assumed contracts on their match groups"],
+        "assumptions": ["exception-set contracts are decided by exploring every syntactic path of the parser (no feasibility pruning): an over-approximation of the reachable raise sites"],
+        "not_decided": ["'never hangs or loops forever' against a server that streams lines or nests directories without end (liveness relative to an adversarial peer)", "other sessions undisturbed: the frame conditions of C17"],
         "explanation": "",
     },
     "C06": {
